@@ -1984,6 +1984,10 @@ fn gen(a: &Args) {
         // as a replacement (real Servers through the builder; the second one loses a worker first)
         writeln!(w, "bld workers=2 limit=1 n=5 calls=workers,limit,blocking:8").unwrap();
         writeln!(w, "bld workers=2 limit=1 n=4 calls=limit,blocking:3,workers kill=1").unwrap();
+        // a worker below its limit is not skipped, whichever builder call set the limit and in which order (seed15 C04-29:
+        // the deprecated `maxconn` alias divided the limit by the number of workers)
+        writeln!(w, "bld workers=2 limit=2 n=6 calls=workers,maxconn").unwrap();
+        writeln!(w, "bld workers=3 limit=3 n=10 calls=maxconn,workers rel=2").unwrap();
         for i in 0..=600usize {
             writeln!(w, "k-offset {i}").unwrap();
         }
